@@ -222,14 +222,30 @@ func genVec(r *Rng, n int) ([]float64, string) {
 	return x, fam
 }
 
-// GenDirect draws one direct-routine input.
+// GenDirect draws one direct-routine input: the first detDirectSlots calls of a
+// process return the deterministic regression families (regress.go part below),
+// every later call a random draw.
 func GenDirect(r *Rng, maxn int) *In {
+	k := genDirectSeq
+	genDirectSeq++
+	if k < detDirectSlots {
+		return detDirect(r, k)
+	}
+	return genDirectRandom(r, maxn)
+}
+
+func genDirectRandom(r *Rng, maxn int) *In {
 	n := r.Range(1, maxn)
 	switch r.Pick([]int{14, 10, 12, 8, 6, 8, 16, 7, 7, 7, 7}) {
 	case 0, 1, 2:
 		k := []string{"chol", "ldl", "fpd"}[r.Intn(3)]
 		a, fam := genSym(r, n)
-		return &In{Kind: k, M: a.Pack(), Garbage: r.Intn(3) == 0, Family: fam}
+		in := &In{Kind: k, M: a.Pack(), Garbage: r.Intn(3) == 0, Family: fam}
+		if !in.Garbage && k != "fpd" && r.Intn(4) == 0 { // factorise in place (fpd: see detDirect)
+			in.InPlace = true
+			in.Family = fam + "+inplace"
+		}
+		return in
 	case 3:
 		x, fam := genVec(r, n)
 		return &In{Kind: "house", X: HexList(x), Family: fam}
@@ -483,6 +499,15 @@ func genSquareIter(r *Rng, n int) (*FM, string, bool) {
 }
 
 func GenIter(r *Rng, maxn int) *IterIn {
+	k := genIterSeq
+	genIterSeq++
+	if k < detIterSlots {
+		return detIter(r, k)
+	}
+	return genIterRandom(r, maxn)
+}
+
+func genIterRandom(r *Rng, maxn int) *IterIn {
 	n := r.Range(1, maxn)
 	path := "f64"
 	if r.Intn(4) == 0 {
@@ -584,4 +609,276 @@ func DenseSweep(r *Rng) []*IterIn {
 		}
 	}
 	return out
+}
+
+// ---------------------------------------------------------------- deterministic regression families
+//
+// Input classes that a random draw reaches too rarely to rely on; each of them is
+// what made a past (seeded) regression visible.  The first calls of GenDirect /
+// GenIter in a process return them in a fixed order (entries still depend on the
+// seed), so every run of every tier contains a guaranteed minimum of each; the
+// family names below show up in the histogram.
+//
+//   bidiag / svd  "v-only-*"       ComputeV without ComputeU, >= 3 columns, dense (non-trivial
+//                                  row reflections), square and tall: the V accumulation must
+//                                  not depend on what the U accumulation leaves in the shared Nu
+//   givens        "zero-zero" ...  the pairs (0,0), (-0,0), (0,-0), (a,0), (0,b): identity rotation
+//   svd           "two-zero-cols", "zerodiag-zero-last": the SVD asks for the (0,0) rotation
+//   fpd           "gmw-stale-*"    Gill-Murray-Wright with a LARGER off-diagonal maximum in an
+//                                  earlier column than in a later, not last one whose pivot is
+//                                  small (SPD / indefinite / nearly singular / bound nearly active)
+//   qr, eig       "sym-blockdiag-*" Symmetric{true} + ComputeU on diag(B1, B2), both blocks
+//                                  unreduced of size >= 2: the active block starts at p > 0
+//   chol ldl fpd  "recycled-L", "inplace": recycled InSitu.L with a non-zero strict upper
+//                                  triangle, and InSitu.L = the input matrix itself
+var genDirectSeq, genIterSeq int
+
+const detDirectSlots = 4 + 5 + 4 + 11
+const detIterSlots = 3 + 4 + 6
+
+func genNZ(r *Rng, hi int) float64 {
+	x := float64(r.Range(1, hi))
+	if r.Bool() {
+		x = -x
+	}
+	return x
+}
+
+// dense matrix without zero entries (integers, or integers plus a random fraction)
+func denseNZ(r *Rng, n, m int, frac bool) *FM {
+	a := NewFM(n, m)
+	for i := range a.V {
+		a.V[i] = genNZ(r, 5)
+		if frac {
+			a.V[i] += 0.5 * (r.Float() - 0.5)
+		}
+	}
+	return a
+}
+
+// symmetric A = t t^T / g + E with t = (g, t_1, ..), |t_i| in [g/4, g/2] and a small E that
+// vanishes in row and column 0: column 0 has the large off-diagonal maximum theta_0 >= g/4,
+// the Schur complement after column 0 is E, so the pivot of column 1 is c_11 = E_11 = p and
+// theta_1 = max |E_i1| is small: (theta_0/beta)^2 >= g/16 > |p| >= (theta_1/beta)^2 (beta^2 = g).
+// variant 0: SPD, 1: indefinite (p < 0), 2: nearly singular (p = 2^-30), 3: bound of column 1 nearly active
+func gmwStale(r *Rng, n, variant int) *FM {
+	g := float64(int(4) << uint(r.Range(0, 2)))
+	t := make([]float64, n)
+	t[0] = g
+	for i := 1; i < n; i++ {
+		t[i] = g / 8 * float64(r.Range(2, 4))
+		if r.Bool() {
+			t[i] = -t[i]
+		}
+	}
+	p := 0.125
+	switch variant {
+	case 1:
+		p = -0.125
+	case 2:
+		p = 1.0 / float64(1<<30)
+	}
+	e := NewFM(n, n)
+	for j := 1; j < n; j++ {
+		sc := p / float64(int(1)<<uint(j-1)) // decreasing by column
+		if sc < 0 {
+			sc = -sc
+		}
+		e.Set(j, j, sc*(1+0.25*float64(r.Intn(3))))
+		for i := j + 1; i < n; i++ {
+			x := sc / float64(2*n) * float64(r.Range(1, 4)) / 4
+			if r.Bool() {
+				x = -x
+			}
+			e.Set(i, j, x)
+			e.Set(j, i, x)
+		}
+	}
+	e.Set(1, 1, p)
+	if variant == 3 && n > 2 { // (theta_1/beta)^2 = |E_21|^2 / g within a few ulps of p
+		x := math.Sqrt(p*g) * (1 + float64(r.Range(-2, 2))*math.Pow(2, -51))
+		e.Set(2, 1, x)
+		e.Set(1, 2, x)
+	}
+	a := NewFM(n, n)
+	for i := 0; i < n; i++ {
+		for j := 0; j < n; j++ {
+			a.Set(i, j, t[i]*t[j]/g+e.At(i, j))
+		}
+	}
+	return a
+}
+
+func detDirect(r *Rng, k int) *In {
+	switch {
+	case k < 4: // bidiagonalisation, V only
+		var a *FM
+		fam := "v-only-square"
+		switch k {
+		case 0:
+			n := r.Range(3, 5)
+			a = denseNZ(r, n, n, false)
+		case 1:
+			m := r.Range(3, 4)
+			a, fam = denseNZ(r, m+r.Range(1, 2), m, true), "v-only-tall"
+		case 2:
+			n := r.Range(4, 6)
+			a = denseNZ(r, n, n, true)
+		default:
+			m := r.Range(3, 5)
+			a, fam = denseNZ(r, m+1, m, false), "v-only-tall"
+		}
+		return &In{Kind: "bidiag", M: a.Pack(), B1: false, B2: true, Garbage: k%2 == 1, Family: fam}
+	case k < 9: // Givens rotation of degenerate pairs
+		negz := math.Copysign(0, -1)
+		x := genNZ(r, 5)
+		if r.Bool() {
+			x *= r.Float() + 0.5
+		}
+		ab := [][2]float64{{0, 0}, {negz, 0}, {0, negz}, {x, 0}, {0, x}}[k-4]
+		fam := []string{"zero-zero", "negzero-zero", "zero-negzero", "b-zero", "a-zero"}[k-4]
+		return &In{Kind: "givens", S: HexList([]float64{ab[0], ab[1]}), Family: fam}
+	case k < 13: // forced-PD LDL: stale theta of an earlier column would be the larger one
+		v := k - 9
+		n := r.Range(3, 5)
+		if v == 0 {
+			n = 3
+		}
+		fam := []string{"gmw-stale-spd", "gmw-stale-indefinite", "gmw-stale-nearly-singular", "gmw-stale-bound-active"}[v]
+		return &In{Kind: "fpd", M: gmwStale(r, n, v).Pack(), Garbage: v == 2, Family: fam}
+	default: // Cholesky family on recycled memory / in place
+		q := k - 13
+		// chol, ldl: 2 x recycled L, 2 x in place; fpd: 3 x recycled L.  fpd is NOT run in place:
+		// cholesky_ldl_forcepd writes L(j,j) = 1 before it reads A(j,j) (reported, see corpus note)
+		kind := []string{"chol", "ldl", "chol", "ldl", "fpd", "chol", "ldl", "chol", "ldl", "fpd", "fpd"}[q]
+		inplace := q >= 5 && kind != "fpd"
+		n := r.Range(2, 5)
+		if q%5 < 2 {
+			n = r.Range(2, 3)
+		}
+		var a *FM
+		if r.Bool() {
+			a = gram(r, n, n+2, 1)
+		} else {
+			a = scaleM(gram(r, n, n+1, 1), 0.1*float64(r.Range(1, 30)))
+		}
+		if inplace {
+			return &In{Kind: kind, M: a.Pack(), InPlace: true, Family: "inplace"}
+		}
+		return &In{Kind: kind, M: a.Pack(), Garbage: true, Family: "recycled-L"}
+	}
+}
+
+// tridiagonal symmetric block with distinct, well separated diagonal entries and
+// non-zero off-diagonal entries (unreduced), or a dense symmetric block
+func genSymBlock(r *Rng, n int, base float64, dense bool) *FM {
+	b := NewFM(n, n)
+	for i := 0; i < n; i++ {
+		b.Set(i, i, base+float64(3*i)+float64(r.Range(0, 1)))
+		for j := 0; j < i; j++ {
+			if dense || j == i-1 {
+				x := float64(r.Range(1, 2))
+				if r.Intn(3) == 0 {
+					x = -x
+				}
+				b.Set(i, j, x)
+				b.Set(j, i, x)
+			}
+		}
+	}
+	return b
+}
+
+func genBlockDiag(bs ...*FM) *FM {
+	n := 0
+	for _, b := range bs {
+		n += b.R
+	}
+	a := NewFM(n, n)
+	o := 0
+	for _, b := range bs {
+		for i := 0; i < b.R; i++ {
+			for j := 0; j < b.C; j++ {
+				a.Set(o+i, o+j, b.At(i, j))
+			}
+		}
+		o += b.R
+	}
+	return a
+}
+
+func detIter(r *Rng, k int) *IterIn {
+	switch {
+	case k < 3: // svd, V only, dense
+		var a *FM
+		fam := "v-only-square"
+		path := "f64"
+		switch k {
+		case 0:
+			n := r.Range(3, 5)
+			a = denseNZ(r, n, n, true)
+		case 1:
+			m := r.Range(3, 4)
+			a, fam = denseNZ(r, m+r.Range(1, 2), m, true), "v-only-tall"
+		default:
+			n := r.Range(3, 4)
+			a, path = denseNZ(r, n, n, false), "r64"
+		}
+		return &IterIn{Kind: "svd", M: a.Pack(), B1: false, B2: true, Path: path, Family: fam}
+	case k < 7: // svd inputs on which the library asks for the Givens rotation of (0, 0)
+		var a *FM
+		fam := "two-zero-cols"
+		switch k - 3 {
+		case 0, 1: // dense with a zero first and a zero last column
+			n := r.Range(4, 5)
+			m := n
+			if k-3 == 1 {
+				m = n - 1
+			}
+			a = denseNZ(r, n, m, false)
+			for i := 0; i < n; i++ {
+				a.Set(i, 0, 0)
+				a.Set(i, m-1, 0)
+			}
+		default: // upper bidiagonal, zero diagonal entry inside + zero last row and column
+			n := r.Range(5, 6)
+			a, fam = NewFM(n, n), "zerodiag-zero-last"
+			for i := 0; i < n-1; i++ {
+				// entries 1..3: the leading block diag (4,1), super-diagonal (1,3) above the zero is an
+				// instance of F-SVD-ZERODIAG-HANG on the unchanged library (the only one among
+				// diag 1..4 x super 1..3); a hang costs a deadline and teaches nothing new
+				a.Set(i, i, float64(r.Range(1, 3)))
+				if i+1 < n-1 {
+					a.Set(i, i+1, float64(r.Range(1, 3)))
+				}
+			}
+			a.Set(2, 2, 0)
+			if k-3 == 3 { // the block above the zero keeps a super-diagonal entry next to the zero row
+				a.Set(n-2, n-1, 0)
+				a.Set(1, 2, float64(r.Range(1, 3)))
+			}
+		}
+		return &IterIn{Kind: "svd", M: a.Pack(), B1: true, B2: true, Path: "f64", Family: fam}
+	default: // symmetric QR algorithm on a decoupled matrix: active block starts at p > 0
+		q := k - 7
+		n1 := []int{2, 3, 2, 2, 3, 2}[q]
+		n2 := []int{2, 2, 3, 2, 2, 3}[q]
+		dense := q%2 == 1
+		b1 := genSymBlock(r, n1, float64(r.Range(-4, 0)), dense)
+		b2 := genSymBlock(r, n2, float64(r.Range(8, 12)), dense)
+		fam := "sym-blockdiag-tridiagonal"
+		if dense {
+			fam = "sym-blockdiag-dense"
+		}
+		path := "f64"
+		if q == 2 || q == 5 {
+			path = "r64"
+		}
+		// eigensystem.Run at HEAD consumes its Symmetric option and calls the general QR algorithm,
+		// so only one slot goes through eig (kept for the day the option is passed on)
+		if q < 5 {
+			return &IterIn{Kind: "qr", M: genBlockDiag(b1, b2).Pack(), B1: true, Sym: true, Path: path, Family: fam}
+		}
+		return &IterIn{Kind: "eig", M: genBlockDiag(b1, b2).Pack(), B1: true, Sym: true, Path: path, Family: fam, RealSpectrum: true}
+	}
 }
